@@ -3226,6 +3226,10 @@ class x86_mn(x86_mn_base):
                     # segment, control and debug registers do not decide
                     # the operand size
                     continue
+                if name in ['in', 'out'] and \
+                        dict([_ for _ in a.items() if _[0] != 'txt']) == r_dx:
+                    # neither does the port register of in/out (always dx)
+                    continue
                 if (is_reg(a)) and a[x86_afs.size] == u32:
                     self.mnemo_mode = u32
                     break
